@@ -527,10 +527,21 @@ pub fn churn<P: PType>(st: &MapSt<P>, cx: &Cx) -> (Vec<Viol>, u64) {
         let mut m = st.map.clone();
         let entries: Vec<(P, u32)> = m.iter().map(|(p, v)| (p.clone(), *v)).collect();
         let mut after2 = 0;
+        let mut broken = false;
         for round in 0..8 {
             m.remove_children(&mkp::<P>(k));
             for (p, v) in &entries {
                 m.insert(p.clone(), *v);
+            }
+            // never run the recursive retain on a structure that is already broken
+            let (_, vs, fatal) = walk(&m.verif_dump(), cx.uni.width);
+            if fatal || !vs.is_empty() {
+                for mut v in vs {
+                    v.detail = format!("during a remove_children/insert cycle with selector {:x?}: {}", k, v.detail);
+                    out.push(v);
+                }
+                broken = true;
+                break;
             }
             m.retain(|p, _| !crate::model::covers(k, p.raw()));
             for (p, v) in &entries {
@@ -541,6 +552,9 @@ pub fn churn<P: PType>(st: &MapSt<P>, cx: &Cx) -> (Vec<Viol>, u64) {
             }
         }
         n += 8;
+        if broken {
+            continue;
+        }
         let end = arena(&m);
         expect!(out, end == after2, "C16", "remove_children/retain cycle", "arena-grows-under-churn", "selector {:x?}: arena has {} slots after 2 rounds and {} after 8", k, after2, end);
     }
